@@ -18,7 +18,6 @@ Binding      : spec -> code: the complete state graphs of small configurations a
                from the ideal only.
 """
 import os
-from concurrent.futures import ThreadPoolExecutor
 from harness import core, tlaval
 from harness import mem_common as mc
 
@@ -152,19 +151,29 @@ def replay_path(ctx, g, path, kind, flavor, rootlen, rng, step_no=[0]):
     return trace, div
 
 
-def spec_to_code(ctx, traces, metas, divergences):
-    quick = ctx.quick
+def dump_confs(ctx):
     confs = [(2, 2, "arr", 3, 2), (4, 1, "own", 2, 2)]
-    if not quick:
+    if not ctx.quick:
         confs += [(1, 3, "arr", 3, 2), (4, 2, "arr", 3, 2), (8, 2, "arr", 2, 2), (8, 1, "own", 3, 2),
                   (3, 2, "arr", 2, 2), (2, 1, "own", 2, 2)]
-    budget = 1200 if quick else 100000
-    for isz, rootlen, rootkind, maxviews, maxsteps in confs:
+    return confs
+
+
+def submit_dumps(ctx, jobs):
+    for isz, rootlen, rootkind, maxviews, maxsteps in dump_confs(ctx):
         dump = os.path.join(ctx.tmp, "mg_%d_%d_%s" % (isz, rootlen, rootkind))
-        hi = rootlen + 1
-        r = core.tlc("Memory", cfg_text=mc.memory_cfg(isz, rootlen, rootkind, maxviews, maxsteps, 1, hi, prune=True,
-                                                      view=False, props=False), dump=dump, workers=4, timeout=1200)
-        ctx.add_tlc("dump(sz=%d,n=%d,%s)" % (isz, rootlen, rootkind), r, count_states=False)
+        jobs.submit("dump(sz=%d,n=%d,%s)" % (isz, rootlen, rootkind), "Memory",
+                    cfg_text=mc.memory_cfg(isz, rootlen, rootkind, maxviews, maxsteps, 1, rootlen + 1, prune=True,
+                                           view=False, props=False), dump=dump, workers=4, timeout=1200)
+
+
+def spec_to_code(ctx, jobs, traces, metas, divergences):
+    quick = ctx.quick
+    budget = 1200 if quick else 100000
+    for isz, rootlen, rootkind, maxviews, maxsteps in dump_confs(ctx):
+        dump = os.path.join(ctx.tmp, "mg_%d_%d_%s" % (isz, rootlen, rootkind))
+        name = "dump(sz=%d,n=%d,%s)" % (isz, rootlen, rootkind)
+        ctx.add_tlc(name, jobs.result(name), count_states=False)
         g = tlaval.load_dot(dump + ".dot")
         seen = {(st["res"]["op"], st["res"]["st"]) for st in g.states.values()}
         need = {("getitem", "ok"), ("getitem", "IndexError"), ("setitem", "ok"), ("setitem", "IndexError"),
@@ -282,8 +291,20 @@ def random_trace(ctx, rng, kind, flavor, n, nops):
     ar = mc.Arena(kind, flavor, n, init)
     tr = ar.header()
     ev = tr["ev"] = []
-    for _ in range(nops):
-        op = gen_op(rng, ar)
+    queue = []
+    for step in range(nops):
+        if not queue and n >= 3 and step % 9 == 4 and len(ar.views) < 10:
+            # overlapping view-to-view assignment: w = x[i:i+k]; x[i+d:i+d+k] = w  (d = +-1, +-2)
+            k = rng.randint(2, min(n - 1, 9))
+            d = rng.choice([x for x in (1, 1, -1, 2, -2) if abs(x) <= n - k])
+            i = rng.randint(max(0, -d), n - k - max(0, d))
+            queue = [{"op": "slice", "a": 1, "i": i, "j": i + k},
+                     lambda: {"op": "assignview", "a": 1, "i": i + d, "j": i + d + k, "b": len(ar.views)}]
+        if queue:
+            op = queue.pop(0)
+            op = op() if callable(op) else op
+        else:
+            op = gen_op(rng, ar)
         if op is None:
             continue
         e, why = mc.careful_apply(ar, op, ev)
@@ -339,36 +360,34 @@ def observations(ctx):
 
 
 # ------------------------------------------------------------------ entry points
-def design_level(ctx):
-    quick = ctx.quick
-    runs = [("MC_Memory(sz=2,arr n=2,views<=3,steps<=3,idx -1..3)", mc.memory_cfg(2, 2, "arr", 3, 3, 1, 3), True),
-            ("MC_Memory(sz=4,own,views<=3,steps<=3,idx -1..2)", mc.memory_cfg(4, 1, "own", 3, 3, 1, 2), False),
-            ("MC_Memory(sz=1,arr n=3,views<=2,steps<=2,idx -1..4)", mc.memory_cfg(1, 3, "arr", 2, 2, 1, 4), False)]
-    if not quick:
-        runs += [("MC_Memory(sz=1,arr n=3,views<=3,steps<=3,idx -1..4)", mc.memory_cfg(1, 3, "arr", 3, 3, 1, 4), False),
-                 ("MC_Memory(sz=2,arr n=2,views<=4,steps<=4,idx -1..3)", mc.memory_cfg(2, 2, "arr", 4, 4, 1, 3), False),
-                 ("MC_Memory(sz=8,arr n=2,views<=3,steps<=3,idx -2..3)", mc.memory_cfg(8, 2, "arr", 3, 3, 2, 3), False)]
+def design_runs(ctx):
+    runs = [("MC_Memory(sz=2,arr n=2,views<=3,steps<=3,idx -1..3)", mc.memory_cfg(2, 2, "arr", 3, 3, 1, 3)),
+            ("MC_Memory(sz=4,own,views<=3,steps<=3,idx -1..2)", mc.memory_cfg(4, 1, "own", 3, 3, 1, 2)),
+            ("MC_Memory(sz=1,arr n=3,views<=2,steps<=2,idx -1..4)", mc.memory_cfg(1, 3, "arr", 2, 2, 1, 4))]
+    if not ctx.quick:
+        runs += [("MC_Memory(sz=1,arr n=3,views<=3,steps<=3,idx -1..4)", mc.memory_cfg(1, 3, "arr", 3, 3, 1, 4)),
+                 ("MC_Memory(sz=2,arr n=2,views<=4,steps<=4,idx -1..3)", mc.memory_cfg(2, 2, "arr", 4, 4, 1, 3)),
+                 ("MC_Memory(sz=8,arr n=2,views<=3,steps<=3,idx -2..3)", mc.memory_cfg(8, 2, "arr", 3, 3, 2, 3))]
+    return runs
 
-    def one(x):
-        name, cfg, cov = x
-        return name, core.tlc("Memory", cfg_text=cfg, workers=4 if quick else 8, coverage=cov, timeout=3000), cov
 
-    def variant(x):
-        v, rk = x
+def submit_design(ctx, jobs):
+    for name, cfg in design_runs(ctx):
+        jobs.submit(name, "Memory", cfg_text=cfg, workers=4 if ctx.quick else 8, timeout=3000)
+    for v, rk in VARIANTS:
         cfg = mc.memory_cfg(2, (3 if v == "memcpy_fwd" else 2) if rk == "arr" else 1, rk, 3, 2, 1, 3, variant=v)
-        return v, core.tlc("Memory", cfg_text=cfg, workers=2, timeout=1200)
-    with ThreadPoolExecutor(4) as ex:
-        fv = [ex.submit(variant, x) for x in VARIANTS]
-        fr = [ex.submit(one, x) for x in runs]
-        for fu in fr:
-            name, r, cov = fu.result()
-            ctx.add_tlc(name, r)
-        for fu in fv:
-            v, r = fu.result()
-            ctx.add_tlc("sanity:" + v, r, require_ok=False, count_states=False)
-            if r.ok or "is violated" not in r.out:
-                raise core.MachineryError("broken variant %s of the implementation model was not rejected by TLC:\n%s"
-                                          % (v, r.out[-1500:]))
+        jobs.submit("sanity:" + v, "Memory", cfg_text=cfg, workers=2, timeout=1200)
+
+
+def collect_design(ctx, jobs):
+    for name, _cfg in design_runs(ctx):
+        ctx.add_tlc(name, jobs.result(name))
+    for v, _rk in VARIANTS:
+        r = jobs.result("sanity:" + v)
+        ctx.add_tlc("sanity:" + v, r, require_ok=False, count_states=False)
+        if r.ok or "is violated" not in r.out:
+            raise core.MachineryError("broken variant %s of the implementation model was not rejected by TLC:\n%s"
+                                      % (v, r.out[-1500:]))
 
 
 def key_of(meta, clause, tr, pos):
@@ -389,15 +408,20 @@ def judge(ctx, traces, metas, bad):
 
 
 def run(ctx):
-    if os.environ.get("VERIF_MEM_SKIP_DESIGN"):      # development aid for mutation experiments only
+    skip = bool(os.environ.get("VERIF_MEM_SKIP_DESIGN"))      # development aid for mutation experiments only
+    jobs = mc.TlcJobs()
+    submit_dumps(ctx, jobs)
+    if skip:
         ctx.cov["states"] = 1
     else:
-        design_level(ctx)
+        submit_design(ctx, jobs)
     traces, metas, divergences = [], [], []
-    spec_to_code(ctx, traces, metas, divergences)
+    spec_to_code(ctx, jobs, traces, metas, divergences)
     nreplay = len(traces)
     code_to_spec(ctx, traces, metas)
     bad = validate(ctx, traces)
+    if not skip:
+        collect_design(ctx, jobs)
     judge(ctx, traces, metas, bad)
     observations(ctx)
     ctx.cov["model_divergences"] = divergences[:10]
